@@ -2,10 +2,11 @@
 import re
 from props.common_prog import judge_prog
 
-THEOREM_MODULES = ["Hcl.Theorems.C05", "Hcl.Theorems.Effects", "Hcl.Tie.Memory", "Hcl.Tie.Fixed"]
+THEOREM_MODULES = ["Hcl.Theorems.C05", "Hcl.Theorems.Effects", "Hcl.Tie.Memory", "Hcl.Tie.Fixed", "Hcl.Tie.PinsStep"]
 THEOREMS = {"Hcl.Theorems.Effects": ["C04_C05_accepted_effect", "portWrite_spec", "writeMem_effect", "writeReg_effect"], "Hcl.Tie.Memory": ["Tie.Memory.memoryReadText", "Tie.Memory.memoryWriteText"], "Hcl.Tie.Fixed": ["Tie.Fixed.fixedFunctions"], "Hcl.Theorems.C05": ["C05_read_spec", "C05_write_spec", "wrLE_hit", "wrLE_other", "C05_read_after_write",
                                  "C05_last_write_wins", "C05_untouched", "C05_read_port", "C05_instruction_port",
-                                 "C05_write_port"]}
+                                 "C05_write_port"],
+            "Hcl.Tie.PinsStep": ["Tie.PinsStep.pinStepWithOutput"]}
 
 RULE = ("S-PROG memory profile: mem_addr/pc from {small constants, counter-derived, 0 - counter (top of the address space), "
         "random 64-bit}, read and write enables toggling over the cycles, random initial images (bytes near 0, near 2^64 "
